@@ -69,6 +69,98 @@ var callDepth int
 var debugStacks = os.Getenv("GOSYM_DEBUG") != ""
 var firstPanicStack []byte
 
+// slotsOf numbers the SSA values of a function (parameters, free variables, locals, value
+// instructions); a frame's environment is a slice indexed by these numbers.
+var slotTables = map[*ssa.Function]map[ssa.Value]int{}
+
+func slotsOf(fn *ssa.Function) map[ssa.Value]int {
+	if t, ok := slotTables[fn]; ok {
+		return t
+	}
+	t := map[ssa.Value]int{}
+	add := func(v ssa.Value) {
+		if _, ok := t[v]; !ok {
+			t[v] = len(t)
+		}
+	}
+	for _, p := range fn.Params {
+		add(p)
+	}
+	for _, fv := range fn.FreeVars {
+		add(fv)
+	}
+	for _, l := range fn.Locals {
+		add(l)
+	}
+	for _, b := range fn.Blocks {
+		for _, in := range b.Instrs {
+			if v, ok := in.(ssa.Value); ok {
+				add(v)
+			}
+		}
+	}
+	if fn.Recover != nil {
+		for _, in := range fn.Recover.Instrs {
+			if v, ok := in.(ssa.Value); ok {
+				add(v)
+			}
+		}
+	}
+	slotTables[fn] = t
+	return t
+}
+
+var envFree = map[*ssa.Function][][]value{}
+
+func (fr *frame) set(k ssa.Value, v value) {
+	i, ok := fr.slots[k]
+	if !ok {
+		panic(fmt.Sprintf("set: no slot for %T %v in %s", k, k.Name(), fr.fn))
+	}
+	fr.envs[i] = v
+}
+
+func (fr *frame) lookup(k ssa.Value) (value, bool) {
+	i, ok := fr.slots[k]
+	if !ok {
+		return nil, false
+	}
+	return fr.envs[i], true
+}
+
+// fnMeta caches what the call path needs to know about a function.
+type fnMeta struct {
+	name, short string
+	top         bool // not an anonymous function
+	cov         bool // belongs to the repository's packages
+	ext         externalFn
+	symIntr     externalFn
+}
+
+var fnMetas = map[*ssa.Function]*fnMeta{}
+
+func metaOf(fn *ssa.Function) *fnMeta {
+	if m, ok := fnMetas[fn]; ok {
+		return m
+	}
+	m := &fnMeta{name: fn.String(), top: fn.Parent() == nil}
+	m.short = m.name
+	if k := strings.LastIndex(m.short, "."); k >= 0 {
+		m.short = m.short[k+1:]
+	}
+	m.cov = fn.Pkg != nil && covPkgs[fn.Pkg.Pkg.Path()]
+	if m.top {
+		m.symIntr = symIntrinsics[m.name]
+		m.ext = externals[m.name]
+		if m.ext == nil && fn.Blocks == nil && m.cov {
+			// body-less declarations in the repository's packages are the harness API
+			m.ext = harnessAPI[m.short]
+		}
+	}
+	fnMetas[fn] = m
+	return m
+}
+
 // symIntrinsics replace a function's real body only when an argument is symbolic.
 var symIntrinsics = map[string]externalFn{}
 
@@ -125,6 +217,8 @@ type deferred struct {
 
 type frame struct {
 	cur              ssa.Instruction
+	slots            map[ssa.Value]int
+	envs             []value
 	i                *interpreter
 	caller           *frame
 	fn               *ssa.Function
@@ -153,7 +247,7 @@ func (fr *frame) get(key ssa.Value) value {
 			return r
 		}
 	}
-	if r, ok := fr.env[key]; ok {
+	if r, ok := fr.lookup(key); ok {
 		return r
 	}
 	panic(fmt.Sprintf("get: no value for %T: %v", key, key.Name()))
@@ -226,10 +320,10 @@ func visitInstr(fr *frame, instr ssa.Instruction) continuation {
 		// no-op
 
 	case *ssa.UnOp:
-		fr.env[instr] = unop(instr, fr.get(instr.X))
+		fr.set(instr, unop(instr, fr.get(instr.X)))
 
 	case *ssa.BinOp:
-		fr.env[instr] = binop(instr.Op, instr.X.Type(), fr.get(instr.X), fr.get(instr.Y))
+		fr.set(instr, binop(instr.Op, instr.X.Type(), fr.get(instr.X), fr.get(instr.Y)))
 
 	case *ssa.Call:
 		fn, args := prepareCall(fr, &instr.Call)
@@ -238,35 +332,35 @@ func visitInstr(fr *frame, instr ssa.Instruction) continuation {
 				defer func() {
 					if r := recover(); r != nil {
 						initSkipped = append(initSkipped, fmt.Sprintf("%v: %v", instr, r))
-						fr.env[instr] = zero(instr.Type())
+						fr.set(instr, zero(instr.Type()))
 					}
 				}()
-				fr.env[instr] = call(fr.i, fr, instr.Pos(), fn, args)
+				fr.set(instr, call(fr.i, fr, instr.Pos(), fn, args))
 			}()
 		} else {
-			fr.env[instr] = call(fr.i, fr, instr.Pos(), fn, args)
+			fr.set(instr, call(fr.i, fr, instr.Pos(), fn, args))
 		}
 
 	case *ssa.ChangeInterface:
-		fr.env[instr] = fr.get(instr.X)
+		fr.set(instr, fr.get(instr.X))
 
 	case *ssa.ChangeType:
-		fr.env[instr] = fr.get(instr.X) // (can't fail)
+		fr.set(instr, fr.get(instr.X)) // (can't fail)
 
 	case *ssa.Convert:
-		fr.env[instr] = conv(instr.Type(), instr.X.Type(), fr.get(instr.X))
+		fr.set(instr, conv(instr.Type(), instr.X.Type(), fr.get(instr.X)))
 
 	case *ssa.SliceToArrayPointer:
-		fr.env[instr] = sliceToArrayPointer(instr.Type(), instr.X.Type(), fr.get(instr.X))
+		fr.set(instr, sliceToArrayPointer(instr.Type(), instr.X.Type(), fr.get(instr.X)))
 
 	case *ssa.MakeInterface:
-		fr.env[instr] = iface{t: instr.X.Type(), v: fr.get(instr.X)}
+		fr.set(instr, iface{t: instr.X.Type(), v: fr.get(instr.X)})
 
 	case *ssa.Extract:
-		fr.env[instr] = fr.get(instr.Tuple).(tuple)[instr.Index]
+		fr.set(instr, fr.get(instr.Tuple).(tuple)[instr.Index])
 
 	case *ssa.Slice:
-		fr.env[instr] = slice(fr.get(instr.X), fr.get(instr.Low), fr.get(instr.High), fr.get(instr.Max))
+		fr.set(instr, slice(fr.get(instr.X), fr.get(instr.Low), fr.get(instr.High), fr.get(instr.Max)))
 
 	case *ssa.Return:
 		switch len(instr.Results) {
@@ -336,17 +430,18 @@ func visitInstr(fr *frame, instr ssa.Instruction) continuation {
 		}()
 
 	case *ssa.MakeChan:
-		fr.env[instr] = make(chan value, asInt64(fr.get(instr.Size)))
+		fr.set(instr, make(chan value, asInt64(fr.get(instr.Size))))
 
 	case *ssa.Alloc:
 		var addr *value
 		if instr.Heap {
 			// new
 			addr = new(value)
-			fr.env[instr] = addr
+			fr.set(instr, addr)
 		} else {
 			// local
-			addr = fr.env[instr].(*value)
+			av, _ := fr.lookup(instr)
+			addr = av.(*value)
 		}
 		*addr = zero(mustDeref(instr.Type()))
 
@@ -356,7 +451,7 @@ func visitInstr(fr *frame, instr ssa.Instruction) continuation {
 		for i := range slice {
 			slice[i] = zero(tElt)
 		}
-		fr.env[instr] = slice[:asInt64(fr.get(instr.Len))]
+		fr.set(instr, slice[:asInt64(fr.get(instr.Len))])
 
 	case *ssa.MakeMap:
 		var reserve int64
@@ -366,19 +461,19 @@ func visitInstr(fr *frame, instr ssa.Instruction) continuation {
 		if !fitsInt(reserve, fr.i.sizes) {
 			panic(fmt.Sprintf("ssa.MakeMap.Reserve value %d does not fit in int", reserve))
 		}
-		fr.env[instr] = makeMap(instr.Type().Underlying().(*types.Map).Key(), reserve)
+		fr.set(instr, makeMap(instr.Type().Underlying().(*types.Map).Key(), reserve))
 
 	case *ssa.Range:
-		fr.env[instr] = rangeIter(fr.get(instr.X), instr.X.Type())
+		fr.set(instr, rangeIter(fr.get(instr.X), instr.X.Type()))
 
 	case *ssa.Next:
-		fr.env[instr] = fr.get(instr.Iter).(iter).next()
+		fr.set(instr, fr.get(instr.Iter).(iter).next())
 
 	case *ssa.FieldAddr:
-		fr.env[instr] = &(*fr.get(instr.X).(*value)).(structure)[instr.Field]
+		fr.set(instr, &(*fr.get(instr.X).(*value)).(structure)[instr.Field])
 
 	case *ssa.Field:
-		fr.env[instr] = fr.get(instr.X).(structure)[instr.Field]
+		fr.set(instr, fr.get(instr.X).(structure)[instr.Field])
 
 	case *ssa.IndexAddr:
 		x := fr.get(instr.X)
@@ -386,16 +481,16 @@ func visitInstr(fr *frame, instr ssa.Instruction) continuation {
 		switch x := x.(type) {
 		case []value:
 			if sv, ok := idx.(symv); ok {
-				fr.env[instr] = &x[symIndex(x, sv)]
+				fr.set(instr, &x[symIndex(x, sv)])
 			} else {
-				fr.env[instr] = &x[asInt64(idx)]
+				fr.set(instr, &x[asInt64(idx)])
 			}
 		case *value: // *array
 			if sv, ok := idx.(symv); ok {
 				a := (*x).(array)
-				fr.env[instr] = &a[symIndex([]value(a), sv)]
+				fr.set(instr, &a[symIndex([]value(a), sv)])
 			} else {
-				fr.env[instr] = &(*x).(array)[asInt64(idx)]
+				fr.set(instr, &(*x).(array)[asInt64(idx)])
 			}
 		default:
 			panic(fmt.Sprintf("unexpected x type in IndexAddr: %T", x))
@@ -407,17 +502,17 @@ func visitInstr(fr *frame, instr ssa.Instruction) continuation {
 
 		switch x := x.(type) {
 		case array:
-			fr.env[instr] = x[asInt64(idx)]
+			fr.set(instr, x[asInt64(idx)])
 		case string:
-			fr.env[instr] = x[asInt64(idx)]
+			fr.set(instr, x[asInt64(idx)])
 		case symstr:
-			fr.env[instr] = x[asInt64(idx)]
+			fr.set(instr, x[asInt64(idx)])
 		default:
 			panic(fmt.Sprintf("unexpected x type in Index: %T", x))
 		}
 
 	case *ssa.Lookup:
-		fr.env[instr] = lookup(instr, fr.get(instr.X), fr.get(instr.Index))
+		fr.set(instr, lookup(instr, fr.get(instr.X), fr.get(instr.Index)))
 
 	case *ssa.MapUpdate:
 		m := fr.get(instr.Map)
@@ -438,14 +533,14 @@ func visitInstr(fr *frame, instr ssa.Instruction) continuation {
 		}
 
 	case *ssa.TypeAssert:
-		fr.env[instr] = typeAssert(fr.i, instr, fr.get(instr.X).(iface))
+		fr.set(instr, typeAssert(fr.i, instr, fr.get(instr.X).(iface)))
 
 	case *ssa.MakeClosure:
 		var bindings []value
 		for _, binding := range instr.Bindings {
 			bindings = append(bindings, fr.get(binding))
 		}
-		fr.env[instr] = &closure{instr.Fn.(*ssa.Function), bindings}
+		fr.set(instr, &closure{instr.Fn.(*ssa.Function), bindings})
 
 	case *ssa.Phi:
 		log.Fatal("unreachable") // phis are processed at block entry
@@ -491,7 +586,7 @@ func visitInstr(fr *frame, instr ssa.Instruction) continuation {
 				r = append(r, v)
 			}
 		}
-		fr.env[instr] = r
+		fr.set(instr, r)
 
 	default:
 		panic(fmt.Sprintf("unexpected instruction: %T", instr))
@@ -581,7 +676,8 @@ func callSSA(i *interpreter, caller *frame, callpos token.Pos, fn *ssa.Function,
 	if d := theExplorer.MaxDepth; d > 0 && callDepth > d {
 		panic(budgetHit("call depth budget exceeded in " + fn.String()))
 	}
-	if p := theExplorer.cur; p != nil && fn.Pkg != nil && covPkgs[fn.Pkg.Pkg.Path()] {
+	m := metaOf(fn)
+	if m.cov && theExplorer.cur != nil {
 		covFuncs[fn]++
 	}
 	if traceUnwind {
@@ -595,41 +691,27 @@ func callSSA(i *interpreter, caller *frame, callpos token.Pos, fn *ssa.Function,
 			}
 		}()
 	}
-	if fn.Parent() == nil && len(redirects) > 0 && !lenientInit {
-		short := fn.String()
-		if k := strings.LastIndex(short, "."); k >= 0 {
-			short = short[k+1:]
-		}
-		if to, ok := redirects[short]; ok && fn.Pkg != nil {
+	if m.top && len(redirects) > 0 && !lenientInit {
+		if to, ok := redirects[m.short]; ok && fn.Pkg != nil {
 			if target := fn.Pkg.Func(to); target != nil && target != fn {
 				return callSSA(i, caller, callpos, target, args, nil)
 			}
 		}
 	}
-	if theExplorer.summary == nil && len(theExplorer.Summaries) > 0 && theExplorer.cur != nil && theExplorer.Summaries[fn.String()] && deepSym(args) {
+	if theExplorer.summary == nil && len(theExplorer.Summaries) > 0 && theExplorer.cur != nil && theExplorer.Summaries[m.name] && deepSym(args) {
 		if r, ok := summarize(i, caller, callpos, fn, args, env); ok {
 			return r
 		}
 	}
-	if fn.Parent() == nil {
-		name := fn.String()
-		if si := symIntrinsics[name]; si != nil && anySym(args) {
-			return si(fr, args)
+	if m.top {
+		if m.symIntr != nil && anySym(args) {
+			return m.symIntr(fr, args)
 		}
-		ext := externals[name]
-		if ext == nil {
-			if i := strings.LastIndex(name, "."); i >= 0 {
-				ext = harnessAPI[name[i+1:]]
-			}
-		}
-		if ext != nil {
-			if i.mode&EnableTracing != 0 {
-				fmt.Fprintln(os.Stderr, "\t(external)")
-			}
-			return ext(fr, args)
+		if m.ext != nil {
+			return m.ext(fr, args)
 		}
 		if fn.Blocks == nil {
-			panic("no code for function: " + name)
+			panic("no code for function: " + m.name)
 		}
 	}
 
@@ -638,18 +720,30 @@ func callSSA(i *interpreter, caller *frame, callpos token.Pos, fn *ssa.Function,
 		panic("interp requires ssa.BuilderMode to include InstantiateGenerics to execute generics")
 	}
 
-	fr.env = make(map[ssa.Value]value)
+	fr.slots = slotsOf(fn)
+	if fl := envFree[fn]; len(fl) > 0 {
+		fr.envs = fl[len(fl)-1]
+		envFree[fn] = fl[:len(fl)-1]
+	} else {
+		fr.envs = make([]value, len(fr.slots))
+	}
+	defer func() {
+		// frames do not outlive their call (closures copy what they capture), so the
+		// environment slice is recycled; stale entries are never read (definitions dominate uses)
+		envFree[fn] = append(envFree[fn], fr.envs)
+		fr.envs = nil
+	}()
 	fr.block = fn.Blocks[0]
 	fr.locals = make([]value, len(fn.Locals))
 	for i, l := range fn.Locals {
 		fr.locals[i] = zero(mustDeref(l.Type()))
-		fr.env[l] = &fr.locals[i]
+		fr.set(l, &fr.locals[i])
 	}
 	for i, p := range fn.Params {
-		fr.env[p] = args[i]
+		fr.set(p, args[i])
 	}
 	for i, fv := range fn.FreeVars {
-		fr.env[fv] = env[i]
+		fr.set(fv, env[i])
 	}
 	for fr.block != nil {
 		runFrame(fr)
@@ -759,7 +853,7 @@ func executePhis(fr *frame) []ssa.Instruction {
 			fr.phitemps = append(fr.phitemps, fr.get(phi.Edges[predIndex]))
 		}
 		for i, phi := range phis {
-			fr.env[phi.(*ssa.Phi)] = fr.phitemps[i]
+			fr.set(phi.(*ssa.Phi), fr.phitemps[i])
 		}
 	}
 	return nonPhis
